@@ -26,7 +26,8 @@ def ncf2cloud_rain(ncffile, outpath, tflag='TFLAG'):
         outfile.write(buf + t.tobytes() + d.tobytes() + buf)
         for zi in range(nzcl):
             for varkey in varkeys:
-                vals = ncffile.variables[varkey][di, zi].astype('>f')
+                vals = np.ma.filled(
+                    ncffile.variables[varkey][di, zi]).astype('>f')
                 buf = np.array((vals.size) * 4, ndmin=1).astype('>i')
                 buf = buf.tobytes()
                 outfile.write(buf)
